@@ -258,7 +258,8 @@ let handle (line : string) : string =
     Printf.sprintf "eval=%s us=%s,%s" (string_of_z (eval p)) (string_of_z mg) (string_of_z eg)
   | "qs" ->
     let p = parse_fen f.(1) in
-    (match qsearch (nat_of_int 64) p (stats_of_nodes N0) (z_of_string f.(2)) (z_of_string f.(3)) Z0 with
+    let ply = if Array.length f > 4 then z_of_string f.(4) else Z0 in
+    (match qsearch (nat_of_int 64) p (stats_of_nodes N0) (z_of_string f.(2)) (z_of_string f.(3)) ply with
      | Some (v, st) -> Printf.sprintf "v=%s nodes=%s sd=%s" (string_of_z v) (string_of_n st.st_nodes) (string_of_z st.st_seldepth)
      | None -> "fuel")
   | "root" ->
